@@ -30,6 +30,11 @@ func libEffects(f *types.Func) ([]string, bool) {
 		return []string{"bytes"}, true
 	case strings.HasPrefix(full, "(*sync.RWMutex)."), strings.HasPrefix(full, "(*sync.Mutex)."):
 		return nil, true
+	case full == "(*bufio.Writer).Write", full == "(*os.File).Write", full == "(*bytes.Buffer).Write", full == "(io.Writer).Write",
+		full == "(*bufio.Writer).WriteByte", full == "(*bytes.Buffer).WriteByte", full == "encoding/binary.Write":
+		return []string{"written"}, true
+	case full == "(*bufio.Writer).Flush":
+		return nil, true
 	}
 	return nil, false
 }
@@ -321,6 +326,38 @@ func (u *Unit) libModel(st *State, e *ast.CallExpr, callee *types.Func, ca callA
 		u.lockOp(st, e, callee.Name(), ca)
 		return Term{Tuple: []Term{}}, true
 	}
+	switch full {
+	case "(*bufio.Writer).Write", "(*os.File).Write", "(*bytes.Buffer).Write", "(io.Writer).Write":
+		// n, err: err == nil ==> n == len(p); the writer's ghost count grows by n
+		p := ca.args[0]
+		n := u.freshOf(st, types.Typ[types.Int], "n")
+		err := Term{S: c.fresh("err", "Int"), T: sig.Results().At(1).Type()}
+		st.assume(and(c.idxLe(c.idxConst(0), n.S), c.idxLe(n.S, sLen(p.S))))
+		st.assume(implies(eq(err.S, "0"), eq(n.S, sLen(p.S))))
+		st.assume(u.externalErr(err.S))
+		u.checkNonNilTerm(st, *ca.recv, e, "receiver of "+u.exprTextShort(e.Fun))
+		u.bumpCount(st, "written", ca.recv.S, n.S, "true")
+		return Term{Tuple: []Term{n, err}}, true
+	case "(*bufio.Writer).WriteByte", "(*bytes.Buffer).WriteByte":
+		err := Term{S: c.fresh("err", "Int"), T: sig.Results().At(0).Type()}
+		st.assume(u.externalErr(err.S))
+		u.bumpCount(st, "written", ca.recv.S, c.idxConst(1), eq(err.S, "0"))
+		return err, true
+	case "(*bufio.Writer).Flush":
+		err := Term{S: c.fresh("err", "Int"), T: sig.Results().At(0).Type()}
+		st.assume(u.externalErr(err.S))
+		return err, true
+	case "encoding/binary.Write":
+		// fixed-size data: the writer's count grows by the encoded size on success
+		if len(e.Args) == 3 {
+			if sz, ok := fixedSize(u.typeOf(e.Args[2])); ok {
+				err := Term{S: c.fresh("err", "Int"), T: sig.Results().At(0).Type()}
+				st.assume(u.externalErr(err.S))
+				u.bumpCount(st, "written", ca.args[0].S, c.idxConst(sz), eq(err.S, "0"))
+				return err, true
+			}
+		}
+	}
 	// ReadAt on anything that is not a contracted repo type: the io.ReaderAt model
 	if callee.Name() == "ReadAt" && sig.Params().Len() == 2 && sig.Results().Len() == 2 && ca.recv != nil {
 		if _, ok := sig.Params().At(0).Type().Underlying().(*types.Slice); ok {
@@ -334,17 +371,61 @@ func (u *Unit) libModel(st *State, e *ast.CallExpr, callee *types.Func, ca callA
 	return Term{}, false
 }
 
+// ghost byte counters: bytes accepted by a writer / bytes consumed from a reader (heaps so that havoc and frames apply)
+func (u *Unit) ghostHeap(name string) string {
+	h := "HG_" + name
+	if _, ok := u.c.heapNames[h]; !ok {
+		u.c.heapNames[h] = "(Array Int Int)"
+	}
+	return h
+}
+
+func (u *Unit) ghostCount(st *State, name, ref string) string {
+	return fmt.Sprintf("(select %s %s)", u.heapRead(st, u.ghostHeap(name)), ref)
+}
+
+// bumpCount: counter(ref) grows by exactly `by` when ok holds, by 0..by otherwise.
+func (u *Unit) bumpCount(st *State, name, ref, by, ok string) {
+	h := u.ghostHeap(name)
+	cur := u.heapRead(st, h)
+	old := fmt.Sprintf("(select %s %s)", cur, ref)
+	nv := u.c.fresh("cnt", "Int")
+	byI := by
+	if u.c.bv {
+		byI = "(bv2nat " + by + ")"
+	}
+	st.assume(implies(ok, eq(nv, "(+ "+old+" "+byI+")")))
+	st.assume(and("(<= "+old+" "+nv+")", "(<= "+nv+" (+ "+old+" "+byI+"))"))
+	u.heapWrite(st, h, fmt.Sprintf("(store %s %s %s)", cur, ref, nv))
+}
+
 func (u *Unit) declareReaderGhost() {
 	c := u.c
 	c.declareFun("rd.size", "(Int) "+c.idxSort())
 	c.declareFun("rd.content", fmt.Sprintf("(Int) (Array %s %s)", c.idxSort(), c.sortOf(u.byteT())))
 }
 
+func fixedSize(t types.Type) (int64, bool) {
+	if t == nil {
+		return 0, false
+	}
+	if bits, _, ok := intInfo(t); ok {
+		if b, isB := t.Underlying().(*types.Basic); isB && (b.Kind() == types.Int || b.Kind() == types.Uint || b.Kind() == types.Uintptr) {
+			return 0, false
+		}
+		return int64(bits / 8), true
+	}
+	return 0, false
+}
+
 // externalErr: an error produced outside the repository is nil, io.EOF, io.ErrUnexpectedEOF or a non-sentinel value.
 func (u *Unit) externalErr(e string) string {
 	eof := u.sentinel("gv_io_EOF")
 	ueof := u.sentinel("gv_io_ErrUnexpectedEOF")
-	return or(eq(e, "0"), eq(e, eof), eq(e, ueof), "(> "+e+" 1000)")
+	// sentinel ids: io.EOF, io.ErrUnexpectedEOF, then the repository's sentinels (<= 1000); an error made outside the
+	// repository is none of the repository's sentinels and wraps none of them
+	u.c.declareRaw("extwrap", "(define-fun extNoWrap ((e Int)) Bool (forall ((x Int)) (=> (and (<= 1 x) (<= x 1000)) (not (errwraps e x)))))")
+	return and(or(eq(e, "0"), eq(e, eof), eq(e, ueof), "(> "+e+" 1000)"), "(extNoWrap "+e+")")
 }
 
 func (u *Unit) sentinel(name string) string {
